@@ -4,3 +4,4 @@ CONSTANTS
   MaxC = 4
   ChainCs = {0, 1, 2, 3, 4}
   Triples = TRUE
+  TripleCs = {0, 2, 3}
